@@ -67,6 +67,58 @@ def uses_in(st, var):
     return [x for x in ast.walk(st) if isinstance(x, ast.Name) and x.id == var] if isinstance(st, ast.AST) else []
 
 
+def reader_wrap_sites(ctx, chk, R4):
+    """Every PackedObjectReader construction site in container.py: offset/length of the row, and the decompresser wraps the reader iff the
+    truthiness of the row's compressed flag (shared by C01.R4 and C10.R2)."""
+    prog = ctx.prog
+    cont = prog.modules['container']
+    nsites = 0
+    for f in prog.all_functions():
+        if f.module is not cont or isinstance(f.node, ast.Lambda):
+            continue
+        for n in walk_local(f.node):
+            if isinstance(n, ast.Call) and norm(n.func) == 'PackedObjectReader':
+                nsites += 1
+                st = n
+                while not isinstance(st, ast.stmt):
+                    st = st._parent
+                tgt = st.targets[0] if isinstance(st, ast.Assign) else getattr(st, 'target', None)
+                var = norm(tgt) if tgt is not None else None
+                blk = st._parent
+                body = next((getattr(blk, a) for a in ('body', 'orelse', 'finalbody') if isinstance(getattr(blk, a, None), list) and st in getattr(blk, a)), [])
+                after = body[body.index(st) + 1:] if st in body else []
+                wrap = None
+                for s2 in after:
+                    for x in ast.walk(s2):
+                        # the innermost `if` whose own arm holds the wrapping assignment
+                        if isinstance(x, ast.If) and any(isinstance(a, ast.Assign) and norm(a.targets[0]) == var and '_get_stream_decompresser()' in norm(a.value) for a in x.body):
+                            wrap = x
+                            break
+                    if wrap is not None:
+                        break
+                # arguments: offset / length of the same row
+                kws = {k.arg: norm(k.value) for k in n.keywords}
+                args = [norm(a) for a in n.args]
+                off = kws.get('offset', args[1] if len(args) > 1 else '')
+                ln = kws.get('length', args[2] if len(args) > 2 else '')
+                if 'offset' not in off or 'length' not in ln:
+                    chk.bad(R4, f.qualname, norm(n)[:100], f'PackedObjectReader is constructed with offset=`{off}`, length=`{ln}`: not the offset/length columns of the row', where=f'{f.module.relpath}:{n.lineno}')
+                    continue
+                if wrap is None:
+                    chk.bad(R4, f.qualname, norm(n)[:100], 'no `if <compressed flag>: reader = decompresser(reader)` follows this packed reader: compressed objects would be returned raw', where=f'{f.module.relpath}:{n.lineno}')
+                else:
+                    t = norm(wrap.test)
+                    if isinstance(wrap.test, ast.Compare) and any(isinstance(o, (ast.Is, ast.IsNot)) for o in wrap.test.ops) and 'compressed' in t:
+                        chk.bad(R4, f.qualname, f'if {t}', 'the compressed flag of the row is tested by identity (`is True`): rows fetched through the raw SQL scan (the strategy used for large requests) '
+                                'carry the flag as the integer 1, for which the identity test is false, so compressed objects are handed out as raw zlib bytes depending on the lookup strategy',
+                                where=f'{f.module.relpath}:{wrap.lineno}')
+                    elif 'compressed' in t and isinstance(wrap.test, (ast.Name, ast.Attribute, ast.Subscript)):
+                        chk.ok(R4, f.qualname, f'{norm(n)[:60]} ; if {t}: wrap', detail='decompresser wraps the reader iff the row is flagged compressed')
+                    else:
+                        chk.bad(R4, f.qualname, f'if {t}', 'the decompresser is applied under a condition that is not the row\'s compressed flag', where=f'{f.module.relpath}:{wrap.lineno}')
+    chk.require(nsites >= 4, f'expected 4 PackedObjectReader construction sites in container.py, found {nsites}')
+
+
 def run(ctx):
     chk = Check('C01', ctx)
     prog, K, E = ctx.prog, ctx.kinds, ctx.effects
@@ -443,48 +495,8 @@ def run(ctx):
         chk.ok(R4, info.qualname, norm(rets[-1]), detail='compresser and decompresser come from the same table entry', nontrivial=False)
     else:
         chk.bad(R4, info.qualname, 'return', 'compresser/decompresser are no longer returned from one table entry', where=f'{info.module.relpath}:{info.lineno}')
-    # PackedObjectReader sites: decompresser wraps iff the row's compressed flag
+    reader_wrap_sites(ctx, chk, R4)
     cont = prog.modules['container']
-    nsites = 0
-    for f in prog.all_functions():
-        if f.module is not cont or isinstance(f.node, ast.Lambda):
-            continue
-        for n in walk_local(f.node):
-            if isinstance(n, ast.Call) and norm(n.func) == 'PackedObjectReader':
-                nsites += 1
-                st = n
-                while not isinstance(st, ast.stmt):
-                    st = st._parent
-                tgt = st.targets[0] if isinstance(st, ast.Assign) else getattr(st, 'target', None)
-                var = norm(tgt) if tgt is not None else None
-                blk = st._parent
-                body = next((getattr(blk, a) for a in ('body', 'orelse', 'finalbody') if isinstance(getattr(blk, a, None), list) and st in getattr(blk, a)), [])
-                after = body[body.index(st) + 1:] if st in body else []
-                wrap = None
-                for s2 in after:
-                    for x in ast.walk(s2):
-                        if isinstance(x, ast.If) and any(isinstance(a, ast.Assign) and norm(a.targets[0]) == var and '_get_stream_decompresser()' in norm(a.value) for a in ast.walk(x)):
-                            wrap = x
-                            break
-                    if wrap is not None:
-                        break
-                # arguments: offset / length of the same row
-                kws = {k.arg: norm(k.value) for k in n.keywords}
-                args = [norm(a) for a in n.args]
-                off = kws.get('offset', args[1] if len(args) > 1 else '')
-                ln = kws.get('length', args[2] if len(args) > 2 else '')
-                if 'offset' not in off or 'length' not in ln:
-                    chk.bad(R4, f.qualname, norm(n)[:100], f'PackedObjectReader is constructed with offset=`{off}`, length=`{ln}`: not the offset/length columns of the row', where=f'{f.module.relpath}:{n.lineno}')
-                    continue
-                if wrap is None:
-                    chk.bad(R4, f.qualname, norm(n)[:100], 'no `if <compressed flag>: reader = decompresser(reader)` follows this packed reader: compressed objects would be returned raw', where=f'{f.module.relpath}:{n.lineno}')
-                else:
-                    t = norm(wrap.test)
-                    if 'compressed' in t and not isinstance(wrap.test, ast.UnaryOp):
-                        chk.ok(R4, f.qualname, f'{norm(n)[:60]} ; if {t}: wrap', detail='decompresser wraps the reader iff the row is flagged compressed')
-                    else:
-                        chk.bad(R4, f.qualname, f'if {t}', 'the decompresser is applied under a condition that is not the row\'s compressed flag', where=f'{f.module.relpath}:{wrap.lineno}')
-    chk.require(nsites >= 4, f'expected 4 PackedObjectReader construction sites in container.py, found {nsites}')
     # (c) row schema: keys of staged dicts == non-PK columns of Obj
     obj = prog.cls('database:Obj')
     cols = {k for k, v in obj.constants.items() if isinstance(v, ast.Call) and norm(v.func) == 'Column'}
@@ -560,6 +572,8 @@ def run(ctx):
     R5 = chk.rule('C01.R5', 'read side: rewinding the decompresser resets all decompression state (chunked re-reads return exactly the stored bytes)', 1)
     from .c07 import rewind_reset
     rewind_reset(ctx, chk, R5)
+    from .c07 import decompresser_buffer_discipline
+    decompresser_buffer_discipline(ctx, chk, R5)
 
     return chk.finish(
         explanation=('Static structural rules on every write and read path: tee loops (exit only on the empty chunk; each chunk to the sink and the hasher exactly once on every '
